@@ -140,3 +140,36 @@ Proof.
   split; [reflexivity|]. split; reflexivity.
 Qed.
 Print Assumptions C10_nonvacuous.
+
+(* ------------------------------------------------------------------------------------------------
+   THE TIE TO THE SOURCE for the decoders.  SamplingGrid.bit_to_int (both call shapes) / _decode and GrayCode.gray_to_bit / bit_to_gray /
+   _decode are whole-array numpy; they are translated on every run (harness/translate_code.py: static methods; 2 ** a, np.dot, np.flip,
+   logical_xor(.accumulate), column slices and hstack have their meaning in theories/Py.v) and proved to be, row by row, the models
+   the theorems above are about (a row read as booleans: non-zero = true). *)
+From TF Require Import Py CodeEqC10.
+From TFG Require Import GenCode.
+Open Scope Z_scope.
+
+Theorem C10_code_gray_to_bit : forall m, map bz (py_gray_to_bit m) = map (fun r => gray_to_bits (bz r)) m.
+Proof. exact code_gray_to_bit. Qed.
+Print Assumptions C10_code_gray_to_bit.
+
+Theorem C10_code_bit_to_gray : forall m, Forall (fun r => r <> []) m ->
+  map bz (py_bit_to_gray m) = map (fun r => bits_to_gray (bz r)) m.
+Proof. exact code_bit_to_gray. Qed.
+Print Assumptions C10_code_bit_to_gray.
+
+Theorem C10_code_bit_to_int_default : forall (w : nat) m, m <> [] -> grid_rows w m ->
+  py_bit_to_int_default m = map (fun r => bits_to_int (bz r)) m.
+Proof. exact code_bit_to_int_default. Qed.
+Print Assumptions C10_code_bit_to_int_default.
+
+Theorem C10_code_SamplingGrid_decode : forall (w n : nat) m, m <> [] -> grid_rows w m -> (w <= n)%nat ->
+  py_SamplingGrid_decode (pow2s (arange (Z.of_nat n))) m = map (fun r => decode Binary (bz r)) m.
+Proof. exact code_SamplingGrid_decode. Qed.
+Print Assumptions C10_code_SamplingGrid_decode.
+
+Theorem C10_code_GrayCode_decode : forall (w n : nat) m, m <> [] -> Forall (fun r => length r = w) m -> (w <= n)%nat ->
+  py_GrayCode_decode (pow2s (arange (Z.of_nat n))) m = map (fun r => decode Gray (bz r)) m.
+Proof. exact code_GrayCode_decode. Qed.
+Print Assumptions C10_code_GrayCode_decode.
